@@ -7,7 +7,7 @@ from comp.locks import gen
 HERE = os.path.join(vlib.ROOT, "comp/locks")
 
 RULE = ("guards: seeded + corpus op scripts (construct locking/dont_lock/adopt_lock/default, lock, unlock, move-construct, "
-        "move-assign, swap, destroy, is_locked/protects) over <= 6 guards x <= 3 instrumented mutexes for unique_lock, "
+        "move-assign, swap, copy-construct/copy-assign attempts, destroy, is_locked/protects, `api` = table of offered transfer operations from type traits) over <= 6 guards x <= 3 instrumented mutexes for unique_lock, "
         "shared_lock and qs lock_guard; non-trivial = distinct script in which a move/assign/swap ran while some guard owned a lock, "
         "or a qs lock_guard was unlocked")
 TRUSTED = ["extraction: ExtrOcamlBasic only; OCaml 4.13.1; comp/locks/guard_driver.ml",
